@@ -3,7 +3,7 @@
    and the objects the theorems talk about take non-trivial values there. *)
 From Coq Require Import QArith Qcanon ZArith List Arith Lia.
 From Verif.lib Require Import Bsp.
-From Verif.C02 Require Import Proofs Proofs_ref Proofs_ndu Proofs_single.
+From Verif.C02 Require Import Proofs Proofs_ref Proofs_ndu Proofs_single Proofs_deriv.
 Import ListNotations.
 Open Scope Qc_scope.
 
@@ -49,37 +49,54 @@ Example ex_index : (numdofs ex_kv 2 = 6)%nat /\ (5 + 2 + 1 < length ex_kv)%nat.
 Proof. vm_compute. split; [reflexivity|lia]. Qed.
 
 (* N_support_knots / N_local: a function that is non-zero, one that is outside the active range *)
-Example ex_nonzero : Nref ex_kv 2 2 (q 3 8) = q 1 4 /\ Nref ex_kv 2 2 (q 3 8) <> 0.
+Example ex_nonzero : this (Nref ex_kv 2 2 (q 3 8)) = (5 # 8)%Q /\ Nref ex_kv 2 2 (q 3 8) <> 0.
 Proof. split; [vm_compute; reflexivity|]. intro H. apply (f_equal this) in H. vm_compute in H. discriminate. Qed.
 
 Example ex_outside : ~ (findspan ex_kv 2 (q 3 8) - 2 <= 5 <= findspan ex_kv 2 (q 3 8))%nat.
 Proof. vm_compute. lia. Qed.
 
 (* the active values (model of active_ev) at an interior point, on the double knot and at the right end *)
-Example ex_active : active_ev ex_kv 2 (q 3 8) = [q 1 8; q 5 8; q 1 4].
+Example ex_active : map this (active_ev ex_kv 2 (q 3 8)) = [1 # 8; 5 # 8; 1 # 4]%Q.
 Proof. vm_compute. reflexivity. Qed.
-Example ex_active_knot : active_ev ex_kv 2 (q 2 4) = [q 1 1; q 0 1; q 0 1].
+Example ex_active_knot : map this (active_ev ex_kv 2 (q 2 4)) = [1; 0; 0]%Q.
 Proof. vm_compute. reflexivity. Qed.
-Example ex_active_end : active_ev ex_kv 2 (q 4 4) = [q 0 1; q 0 1; q 1 1].
+Example ex_active_end : map this (active_ev ex_kv 2 (q 4 4)) = [0; 0; 1]%Q.
 Proof. vm_compute. reflexivity. Qed.
 
-(* dN_sum_zero / dN_high_zero: k = 1 with non-zero summands; k = 3 > p = 2 *)
-Example ex_dN : map (fun i => dNref ex_kv 1 2 i (q 3 8)) [1;2;3]%nat = [q (-2) 1; q 0 1; q 2 1].
+(* dN_sum_zero / dN_high_zero: k = 1, 2 with non-zero summands; k = 3 > p = 2 *)
+Example ex_dN : map (fun i => this (dNref ex_kv 1 2 i (q 3 8))) (seq 0 6) = [0; -2; -2; 4; 0; 0]%Q.
+Proof. vm_compute. reflexivity. Qed.
+Example ex_d2N : map (fun i => this (dNref ex_kv 2 2 i (q 3 8))) (seq 0 6) = [0; 16; -48; 32; 0; 0]%Q.
 Proof. vm_compute. reflexivity. Qed.
 Example ex_high : (2 < 3)%nat.
 Proof. lia. Qed.
 
 (* ndu_divisors_pos: r < j <= p *)
-Example ex_div : (0 < 1)%nat /\ (1 <= 2)%nat /\ get2 (ndu_table ex_kv 2 (findspan ex_kv 2 (q 3 8)) (q 3 8)) 1 0 = q 1 4.
+Example ex_div : (0 < 1)%nat /\ (1 <= 2)%nat /\
+  this (get2 (ndu_table ex_kv 2 (findspan ex_kv 2 (q 3 8)) (q 3 8)) 1 0) = (1 # 4)%Q.
 Proof. split; [lia|]. split; [lia|]. vm_compute. reflexivity. Qed.
 
 (* single_ev_eq_spec: open_kv and the index bound; a non-trivial value, both special cases *)
-Example ex_single : single_ev ex_kv 2 2 (q 3 8) = q 1 4 /\ single_ev ex_kv 2 0 (q 0 4) = 1 /\
-  single_ev ex_kv 2 5 (q 4 4) = 1 /\ single_ev ex_kv 2 4 (q 4 4) = 0.
+Example ex_single : map (fun i => this (single_ev ex_kv 2 i (q 3 8))) (seq 0 6) = [0; 1 # 8; 5 # 8; 1 # 4; 0; 0]%Q /\
+  this (single_ev ex_kv 2 0 (q 0 4)) = 1%Q /\ this (single_ev ex_kv 2 5 (q 4 4)) = 1%Q /\
+  this (single_ev ex_kv 2 4 (q 4 4)) = 0%Q.
 Proof. vm_compute. repeat split; reflexivity. Qed.
 
-(* colloc_row_spec / colloc_row_values: a full row *)
-Example ex_colloc : colloc_row ex_kv 2 0 (q 3 8) = [q 0 1; q 1 8; q 5 8; q 1 4; q 0 1; q 0 1].
+(* colloc_row_spec / colloc_row_values: full rows of orders 0, 1, 2 *)
+Example ex_colloc : map this (colloc_row ex_kv 2 0 (q 3 8)) = [0; 1 # 8; 5 # 8; 1 # 4; 0; 0]%Q.
 Proof. vm_compute. reflexivity. Qed.
-Example ex_colloc_d1 : colloc_row ex_kv 2 1 (q 3 8) = [q 0 1; q (-2) 1; q 0 1; q 2 1; q 0 1; q 0 1].
+Example ex_colloc_d1 : map this (colloc_row ex_kv 2 1 (q 3 8)) = [0; -2; -2; 4; 0; 0]%Q.
 Proof. vm_compute. reflexivity. Qed.
+Example ex_colloc_d2 : map this (colloc_row ex_kv 2 2 (q 3 8)) = [0; 16; -48; 32; 0; 0]%Q.
+Proof. vm_compute. reflexivity. Qed.
+
+(* active_derivs_eq_spec / active_deriv_row / dN_formula: orders 0..4 > p = 2 at an interior point and on
+   the double knot; the coefficients a_{k,j} of the closed formula are non-trivial *)
+Example ex_derivs : map (map this) (active_deriv ex_kv 2 (q 3 8) 4) =
+  [[1 # 8; 5 # 8; 1 # 4]; [-2; -2; 4]; [16; -48; 32]; [0; 0; 0]; [0; 0; 0]]%Q.
+Proof. vm_compute. reflexivity. Qed.
+Example ex_derivs_knot : map (map this) (active_deriv ex_kv 2 (q 2 4) 3) =
+  [[1; 0; 0]; [-4; 4; 0]; [8; -16; 8]; [0; 0; 0]]%Q.
+Proof. vm_compute. reflexivity. Qed.
+Example ex_acoef : map (fun j => this (acoef ex_kv 2 1 2 j)) (seq 0 3) = [0; -24; 8]%Q /\ Ffac 2 2 = 2%Z /\ (2 <= 2)%nat.
+Proof. split; [vm_compute; reflexivity|]. split; [reflexivity|lia]. Qed.
